@@ -47,6 +47,12 @@ Create(c, k) ==
   /\ st[c] = "idle" /\ st' = [st EXCEPT ![c] = "created"] /\ key' = [key EXCEPT ![c] = k]
   /\ ev' = [e |-> "create", c |-> c, key |-> k, t |-> now, res |-> "created", ns |-> 0] @@ Bal(tokens)
   /\ UNCHANGED <<cfg, now, attempt, until, untilHi, gout, gid, ngate, tokens, blim>>
+\* the property is silent on whether the first attempt starts in Service::call or at the first poll: both are accepted
+CreateEager(c, k) ==
+  /\ st[c] = "idle" /\ st' = [st EXCEPT ![c] = "calling"] /\ key' = [key EXCEPT ![c] = k]
+  /\ gout' = [gout EXCEPT ![c] = "pending"] /\ gid' = [gid EXCEPT ![c] = ngate + 1] /\ ngate' = ngate + 1
+  /\ ev' = [e |-> "create", c |-> c, key |-> k, t |-> now, res |-> "created", ns |-> 1, si |-> ngate + 1, sc |-> c] @@ Bal(tokens)
+  /\ UNCHANGED <<cfg, now, attempt, until, untilHi, tokens, blim>>
 \* an attempt starts: first poll, or the poll after the backoff sleep (never before it is over)
 PollAttempt(c) ==
   /\ \/ st[c] = "created"
@@ -80,6 +86,7 @@ PollOutcome(c) ==
   /\ UNCHANGED <<cfg, now, key, gout, gid, ngate>>
 PollStutter(c) ==
   /\ \/ (st[c] = "calling" /\ gout[c] = "pending")
+     \/ st[c] = "created"                          \* an extra suspension point before the first attempt (Advance still needs it started)
      \/ (st[c] = "sleeping" /\ now < untilHi[c])
   /\ ev' = [e |-> "poll", c |-> c, t |-> now, res |-> "pending", ns |-> 0, nd |-> 0] @@ Bal(tokens)
   /\ UNCHANGED <<cfg, now, st, key, attempt, until, untilHi, gout, gid, ngate, tokens, blim>>
